@@ -57,6 +57,8 @@ class MDPPEnv(DPPEnv):
         if generator is None:
             generator = MDPPGenerator(**generator_params)
         self.generator = generator
+        # the parent constructor copied max_decaps from a default DPPGenerator: use our generator's
+        self.max_decaps = self.generator.max_decaps
 
         assert reward_type in [
             "minmax",
